@@ -152,6 +152,9 @@ theorem int_le_test (x y : BitVec 64) : decide (x.toInt ≤ y.toInt) = !BitVec.s
 theorem Ord4.rev_tests (o : Ord4) : o.rev.isLt = o.isGt ∧ o.rev.isLe = o.isGe := by
   cases o <;> exact ⟨rfl, rfl⟩
 
+theorem Ord4.rev_tests' (o : Ord4) : o.rev.isGt = o.isLt ∧ o.rev.isGe = o.isLe := by
+  cases o <;> exact ⟨rfl, rfl⟩
+
 theorem Ord4.toInt_tests (o : Ord4) :
     o.toInt = (if o.isLt then BitVec.ofInt 64 (-1) else if o.isGt then 1#64 else 0#64) := by
   cases o <;> rfl
